@@ -252,7 +252,8 @@ func runC16(c *fw.Ctx) {
 			c.Violation("static:constructor", err.Error(), nil)
 			continue
 		}
-		for _, cd := range []c16Cand{{u, c16Pass(u)}, {u, "x"}, {"x", c16Pass(u)}, {"", ""}, {u, ""}, {"", c16Pass(u)}, {c16Pass(u), u}, {u, fmt.Sprintf("%x", sha256.Sum256([]byte(c16Pass(u))))}} {
+		for _, cd := range []c16Cand{{u, c16Pass(u)}, {u, "x"}, {"x", c16Pass(u)}, {"", ""}, {u, ""}, {"", c16Pass(u)}, {c16Pass(u), u}, {u, fmt.Sprintf("%x", sha256.Sum256([]byte(c16Pass(u))))},
+			{u + c16Pass(u), ""}, {"", u + c16Pass(u)}, {u[:len(u)-1], u[len(u)-1:] + c16Pass(u)}, {u + c16Pass(u)[:2], c16Pass(u)[2:]}} {
 			p, aerr := h.Authenticate(context.Background(), auth.ApplicationContext{Username: []byte(cd.User), Password: []byte(cd.Pass)}, auth.TransportContext{})
 			want := cd.User == u && cd.Pass == c16Pass(u)
 			c.Case(fmt.Sprintf("static|%s|%v", u, cd), true)
